@@ -305,9 +305,9 @@ BOUNDED = [
      'the 15 helper functions of array_utils/fft_helper/common against the executable reading of their contracts: all data/output lengths <= 12 (zip: <= 8), chunk sizes <= 5, scratch <= 3 (exhaustive in that box); up to 12 chunks'),
     ('chunks', ['C07', 'C12'], 'chunks:96', 'chunks:700',
      'C07 on real transforms (21 butterflies, Dft, every FftPlannerScalar<f64> length below the limit): a k-chunk call (k <= 6) equals k single-chunk calls bit for bit on the three explicit-scratch entry points'),
-    ('simd_sse', ['C01', 'C03', 'C04', 'C07', 'C09', 'C13', 'C15'], 'simd_sse:260', 'simd_sse:1100',
-     'SIMD kernels are outside both verifiers: FftPlannerSse<f32|f64> on this CPU, every length below the limit: plans without panic, len/direction/scratch<=12n+64; through the three explicit-scratch entry points with canary-guarded buffers: 1..5 chunks and ill-shaped variants, canaries and immutable input intact, ill-shaped panics, every chunk equals the portable (scalar planner) transform of that chunk up to rounding (2e-4 f32 / 1e-11 f64 relative L2)', 'avx,sse'),
-    ('simd_avx', ['C01', 'C03', 'C04', 'C07', 'C09', 'C13', 'C15'], 'simd_avx:336', 'simd_avx:1100',
+    ('simd_sse', ['C01', 'C03', 'C04', 'C07', 'C08', 'C09', 'C13', 'C15'], 'simd_sse:260', 'simd_sse:1100',
+     'SIMD kernels are outside both verifiers: FftPlannerSse<f32|f64> on this CPU, every length below the limit: plans without panic, len/direction/scratch<=12n+64; through the three explicit-scratch entry points with canary-guarded buffers: 1..5 chunks and ill-shaped variants, canaries and immutable input intact, ill-shaped panics, every chunk equals the portable (scalar planner) transform of that chunk up to rounding (2e-4 f32 / 1e-11 f64 relative L2); with exactly the advertised scratch the output is bit-identical whether scratch and output start as zero, NaN or +inf (C08)', 'avx,sse'),
+    ('simd_avx', ['C01', 'C03', 'C04', 'C07', 'C08', 'C09', 'C13', 'C15'], 'simd_avx:336', 'simd_avx:1100',
      'same for FftPlannerAvx<f32|f64> (this CPU: avx2+fma)', 'avx,sse'),
     ('simd_pairs', ['C04', 'C05', 'C06', 'C10', 'C12'], 'simd_pairs:160:10000:1200', 'simd_pairs:400:40000:2400',
      'history quantifier of C10 on the SIMD planners at shape level (stand-in wherever a planner proof is lost to an unsupported rewrite): every ordered pair of requests below the first limit (AVX and SSE planners, f32 and f64, same and opposite direction) and, for the AVX planner, every pair a | b of 11-smooth lengths below the second limit: no panic, second answer has the requested length and direction and advertises at most 12 n + 64 scratch; for the workspace clause of C05 under history additionally every prime b below the third limit requested after each a = 2^i 3^j in [2b-1, 12b] (the lengths a Bluestein search can consider)', 'avx,sse'),
